@@ -141,6 +141,10 @@ class DictDecoder:
                     raise ParserError(f"Unknown property {clazz.__qualname__}.{key}")
                 continue
 
+            if value is None and (var.list_element or var.tokens):
+                # An explicit null for a repeating field is an absent value
+                continue
+
             if var.wrapper:
                 value = self.unwrap_value(clazz, var, value)
 
@@ -460,6 +464,9 @@ class DictDecoder:
         """
         for var in xml_vars:
             if var.local_name == key:
+                if value is None:
+                    return var
+
                 var_is_list = var.list_element or var.tokens
                 is_array = collections.is_array(value)
                 if is_array == var_is_list:
